@@ -73,7 +73,7 @@ func (r *Registry) PushBlobChunkedResume(ctx context.Context, repoName, id strin
 		}, id)
 		repo.uploads[b.ID()] = b
 	}
-	b.checkStartOffset = offset
+	b.setCheckStartOffset(offset)
 	return b, nil
 }
 
